@@ -46,13 +46,14 @@ Definition gds_to_double_dy (real : N) : bool * N * Z :=
 
 (* ================================================================== gdsii_real_from_double
      if (value == 0) return 0;  sign -> u8_1 = 0x80, value = -value;
-     fexp = 0.25 * log2(value); exponent = ceil(fexp); if (exponent == fexp) exponent++;
+     int binary_exponent; frexp(value, &binary_exponent);      value in [2^(be-1), 2^be)
+     exponent = ceil(0.25 * binary_exponent);
      mantissa = (uint64_t)(value * pow(16, 14 - exponent));
      u8_1 += (uint8_t)(64 + exponent);
      result = ((uint64_t)u8_1 << 56) | (mantissa & 0x00FFFFFFFFFFFFFF);
-   The exponent E is computed in floating point (libm log2); the model takes it as a parameter.
-   value = m * 2^e > 0.  value * 16^(14-E) is exact in a double (a power-of-two scaling of a
-   normal number that stays normal), the cast truncates: floor (m * 2^(e + 4*(14-E))). *)
+   value = m * 2^e > 0.  [gds_encode_with E] is the tail of the function for a given exponent E:
+   value * 16^(14-E) is exact in a double (a power-of-two scaling of a normal number that stays
+   normal), the cast truncates: floor (m * 2^(e + 4*(14-E))). *)
 Definition gds_encode_with (E : Z) (neg : bool) (m e : Z) : N :=
   let mantissa := (Z.to_N (Z.shiftl m (e + 4 * (14 - E))) mod 2 ^ 64)%N in
   let u8_1 := (((if neg then 128 else 0) + Z.to_N ((64 + E) mod 256)) mod 256)%N in
@@ -60,9 +61,17 @@ Definition gds_encode_with (E : Z) (neg : bool) (m e : Z) : N :=
 
 Definition gds_encode_zero : N := 0%N.
 
-(* the exponent for which the stored mantissa lies in [2^52, 2^56) when m has 53 bits:
-   16^(E-1) <= value < 16^E, i.e. E = ceil (b / 4) with 2^(b-1) <= value < 2^b *)
-Definition ideal_exponent (m e : Z) : Z := (e + Z.log2 m + 1 + 3) / 4.
+(* frexp: binary_exponent = e + (number of bits of m), also for denormal inputs (frexp normalises);
+   0.25 * binary_exponent and ceil are exact.  ceil (b / 4) = floor ((b + 3) / 4).
+   This is the exponent for which the stored mantissa lies in [2^52, 2^56) when m has 53 bits:
+   16^(E-1) <= value < 16^E. *)
+Definition frexp_exponent (m e : Z) : Z := e + Z.log2 m + 1.
+Definition ideal_exponent (m e : Z) : Z := (frexp_exponent m e + 3) / 4.
+
+(* the whole function on a non-zero double +- m * 2^e.  Outside 16^-65 <= value < 16^63 (in
+   particular for denormal doubles) `(uint8_t)(64 + exponent)` is applied to a value outside
+   0..255, which C++ leaves undefined: the theorems exclude that range explicitly. *)
+Definition gds_encode (neg : bool) (m e : Z) : N := gds_encode_with (ideal_exponent m e) neg m e.
 
 (* ================================================================== byte swaps (src/utils.cpp)
      swap16: (b << 8) | (b >> 8)                                            in uint16_t
@@ -109,7 +118,6 @@ Definition dbl_decompose (bits : N) : option (bool * Z * Z) :=
   else if ex =? 0 then (if frac =? 0 then None else Some (neg, frac, -1074))
   else Some (neg, 2 ^ 52 + frac, ex - 1075).
 
-(* the exponents covered by the theorems: the ideal one, or one more in the top binade below 16^E* *)
-Definition gds_exponent_allowed (m e E : Z) : bool :=
-  let Ei := ideal_exponent m e in
-  (E =? Ei) || ((E =? Ei + 1) && (2 ^ (4 * Ei - e) <=? 2 * m)).
+(* the exponent byte 64 + E is a 7-bit value: 16^-65 <= value < 16^63 *)
+Definition gds_in_range (m e : Z) : bool :=
+  (-64 <=? ideal_exponent m e) && (ideal_exponent m e <=? 63).
